@@ -154,6 +154,11 @@ def build_module(module: str, cls: str, vtype: str, lit: str, deps: list[dict[st
 		lines.append('\tbi2 = bi')
 		lines.append('\tbt = bx.table')
 		lines.append('\tbt2 = bt')
+		# a generic nested directly in itself with the class template inside
+		lines.append('\tbr = bx.rows()')
+		lines.append('\tbr2 = br')
+		lines.append('\tbix = bx.index()')
+		lines.append('\tbix2 = bix')
 	if generic:
 		lines.append(f'\thh = IntHolder_{tag}(k)')
 		lines.append('\thv = hh.value')
@@ -229,7 +234,7 @@ def gen_pool(rng: random.Random, shape: str | None = None, n_variants: int | Non
 		classes = rng.sample(CLASS_POOL, n) if n <= len(CLASS_POOL) else classes
 	alias = same_cls
 	use_box = rng.random() < box_p
-	flags = [{'with_enum': rng.random() < 0.35, 'dict_local': rng.random() < 0.4, 'wide': rng.random() < wide_p, 'doc': rng.random() < doc_p, 'generic': rng.random() < generic_p, 'box': use_box and rng.random() < 0.6} for _ in range(n)]
+	flags = [{'with_enum': rng.random() < 0.35, 'dict_local': rng.random() < 0.4, 'wide': rng.random() < wide_p, 'doc': rng.random() < doc_p, 'generic': rng.random() < generic_p, 'box': use_box and (box_p >= 1.0 or rng.random() < 0.6)} for _ in range(n)]
 	deps_of = {i: [j for (a, j) in edges if a == i] for i in range(n)}
 
 	def dep_specs(i: int, dropped: set[int] = frozenset()) -> list[dict[str, Any]]:
@@ -359,6 +364,12 @@ class GBox(Generic[T]):
 	def copied(self) -> list[T]:
 		own = self.items
 		return own
+
+	def rows(self) -> list[list[T]]:
+		return [self.items]
+
+	def index(self) -> dict[str, dict[str, T]]:
+		return {}
 '''
 
 SWAP_SRC = ['''class X:
